@@ -42,8 +42,12 @@ type alphabet struct {
 	Done     []string // ok ok:k1 ok:k1+k2 ok:k2 err cde sde nr
 	Adv      []int    // ms
 	Fail     bool
-	MaxOpen  int
-	MaxSC    int
+	// Close: gRPC closes the balancer at some point of the history. Afterwards it delivers no more
+	// balancer callbacks and refuses to create connections, but picks on the pickers already
+	// published and completion callbacks of open calls still arrive.
+	Close   bool
+	MaxOpen int
+	MaxSC   int
 }
 
 type poolCfg struct {
@@ -181,6 +185,7 @@ type poolWorld struct {
 	resolved                  bool
 	calls                     []*call // open (returned, not completed) and parked calls
 	pairRefs                  []*subConnRef
+	closed                    bool        // the balancer was closed by gRPC
 	serializer                vsync.Mutex // pair harness: balancer callbacks are delivered one at a time
 	pairCalls                 []*call     // snapshot of the open calls after the setup (pairs harness)
 	pairPlaced, pairCompleted int
@@ -380,6 +385,15 @@ func (w *poolWorld) Ops() []string {
 			}
 		}
 	}
+	if a.Close && !w.closed {
+		ops = append(ops, "close()")
+	}
+	if w.closed {
+		for _, d := range a.Adv {
+			ops = append(ops, fmt.Sprintf("adv(%d)", d))
+		}
+		return ops
+	}
 	if a.States != "" {
 		for _, sc := range w.cc.scs {
 			if sc.shutdown {
@@ -511,6 +525,13 @@ func (w *poolWorld) Do(op string) {
 		w.doResolve(args[0])
 	case "resolverError":
 		w.doResolverError()
+	case "close":
+		th := w.runThread("close", func() { w.b.Close() })
+		if !w.classify(th, "close", false) {
+			return
+		}
+		w.closed = true
+		w.cc.failFactory = true
 	case "state":
 		var id int
 		fmt.Sscanf(args[0], "%d", &id)
@@ -1524,7 +1545,7 @@ func (w *poolWorld) Key() string {
 	for _, sc := range live {
 		fmt.Fprintf(&b, "%s:%v,%v,%s,%v;", scName(sc), sc.state, sc.reported, sc.addrs, sc.removed)
 	}
-	fmt.Fprintf(&b, "|unk=%v|fail=%v|addrs=%s|res=%v", w.unknown.state, w.cc.failFactory, w.addrs, w.resolved)
+	fmt.Fprintf(&b, "|unk=%v|fail=%v|addrs=%s|res=%v|closed=%v", w.unknown.state, w.cc.failFactory, w.addrs, w.resolved, w.closed)
 	b.WriteString("|calls=")
 	now := w.s.Clock()
 	rel := func(t time.Time) int64 {
